@@ -58,12 +58,12 @@ ASSUMPTIONS = [
     "the message ID and the encodings (case, compression) of the TSIG owner / algorithm names are not authenticated by RFC 8945 (original ID and canonical names are digested); bitflip_changes_input proves that an accepted alteration there leaves the canonical names, hence every digest component, unchanged",
     "an alteration that turns the TSIG RR into a non-TSIG record yields an unsigned message (had_tsig False); rejecting unsigned answers to signed queries is the caller's rule (dns.query / C18), not part of validation",
     "callable keyrings are modelled as functions of the owner name (what a callable does with the message, i.e. GSS-TSIG negotiation, and GSS-TSIG itself are outside the model); in the tie a callable is a finite table",
-    "sign_then_read takes the owner-name encoding as any octet string that reads back as a name equal to the key's (OwnerEncodes; discharged for the uncompressed encoding); that the renderer's compressed encoding is such a string is C01/C03's compression soundness plus this check's correspondence on every rendered message",
+    "sign_then_read takes the owner-name encoding as any octet string that reads back as a name equal to the key's (OwnerEncodes); this is discharged for the uncompressed encoding and, by compressed_owner_encodes / sign_then_read_compressed, for what C01's model of the compressing name writer (toWireC) appends against any compression table that is sound in the buffer; that the table the real renderer holds at that point is sound is the invariant C01's toWireC_sound maintains along rendering, tied to the code by C01/C03 and by this check's correspondence on every rendered message",
     "in later envelopes of a multi-message exchange only the timers are digested (RFC 8945 5.3.1), so error/other data and the names of those TSIG RRs are outside the 'determined by the MAC input' claim; RFC 8945 5.3.1 reading: the prior MAC is digested like a request MAC (with its 2-octet length), as BIND does",
     "the retained as-shipped variant of the TTL decision point (strict = false) is kept in the model only to state what the repair 62699df changed; the check probes the working tree and demands correspondence with the current variant",
 ]
 LEVEL = {
-    "text": "Lean 4 theorems over an executable model of dns/tsig.py, the TSIG RDATA codec, Message.use_tsig, the signing tail of Message.to_wire / Renderer._write_tsig and the TSIG part of dns.message._WireReader (Key, dict and callable keyrings), HMAC being an arbitrary function: (1) the regenerated algorithm table is exactly RFC 8945 section 6; (2) the octets fed to the MAC equal an independently written RFC 8945 4.3 / 5.3.1 composition for requests, responses bound to a request MAC, and every signed envelope of an exchange with any subset of unsigned intermediates; (3) sign-render-read: for every algorithm of the table a message signed by the model of to_wire is accepted by validate and by the reader with the same key anywhere in the fudge window, the reader reports the TSIG written and the body signed and hands on the signer's context, and a whole multi-message exchange with any pattern of signed/unsigned envelopes is accepted; (4) the complete rejection decision list, misplaced TSIG = BadTSIG; (5) request-MAC binding; (6) acceptance is sound for every keyring, the MAC input determines every RFC 8945 digest component (message from octet 2, canonical names, times, error, other), hence every single-bit alteration is rejected, or changes the (input, MAC) pair, or lies in the ID / the encodings of the two names with all digest components unchanged; with the TTL repair in, the TTL field is covered; (7) the reader's name decoding equals C01's fromWireAux. Tied to the code by a differential check of the exact octets passed to update(), of every outcome and of the verdict on every single-bit alteration of ~70 signed messages per run; an independent RFC 1035/8945 reference recomputes every MAC with Python's hmac and judges every alteration.",
+    "text": "Lean 4 theorems over an executable model of dns/tsig.py, the TSIG RDATA codec, Message.use_tsig, the signing tail of Message.to_wire / Renderer._write_tsig and the TSIG part of dns.message._WireReader (Key, dict and callable keyrings), HMAC being an arbitrary function: (1) the regenerated algorithm table is exactly RFC 8945 section 6; (2) the octets fed to the MAC equal an independently written RFC 8945 4.3 / 5.3.1 composition for requests, responses bound to a request MAC, and every signed envelope of an exchange with any subset of unsigned intermediates; (3) sign-render-read: for every algorithm of the table a message signed by the model of to_wire is accepted by validate and by the reader with the same key anywhere in the fudge window, the reader reports the TSIG written and the body signed and hands on the signer's context, and a whole multi-message exchange with any pattern of signed/unsigned envelopes is accepted; (4) the complete rejection decision list, misplaced TSIG = BadTSIG; (5) request-MAC binding; (6) acceptance is sound for every keyring, the MAC input determines every RFC 8945 digest component (message from octet 2, canonical names, times, error, other), hence every single-bit alteration is rejected, or changes the (input, MAC) pair, or lies in the ID / the encodings of the two names with all digest components unchanged; with the TTL repair in, the TTL field is covered; (7) the reader's name decoding equals C01's fromWireAux, and the compressed TSIG owner name written by C01's toWireC against any sound table is accepted by the reader (sign_then_read_compressed). Routes driven: Message.use_tsig/to_wire (first and second rendering), Renderer.add_tsig/add_multi_tsig, make_response, from_wire with Key/dict/callable/True/False keyrings, continue_on_error, tsigkeyring text forms, dns.tsig.sign/validate/_digest directly. Tied to the code by a differential check of the exact octets passed to update(), of every outcome and of the verdict on every single-bit alteration of ~70 signed messages per run; an independent RFC 1035/8945 reference recomputes every MAC with Python's hmac and judges every alteration.",
     "note": "Trusted: Lean kernel + propext/Classical.choice/Quot.sound; the statements in lean/Props/C14.lean; the harness generators and the independent reference in harness/props/C14.py; Python hmac/hashlib. HMAC strength appears only as explicit hypotheses. Skeleton reader (other records skipped). The TTL finding is repaired in /repo (62699df); the as-shipped variant is retained in the model only for ttl_bit_accepted_in_asShipped_variant.",
     "technique": "Lean 4 proof (byte-composition equality, decision logic, injectivity of a self-delimiting encoding incl. prefix-freeness of wire names, codec round trips, positional analysis of single-bit flips) + model-vs-implementation correspondence with recorded MAC input + independent-reference oracle",
     "design_ref": "DESIGN.md §7 C14",
